@@ -1,8 +1,290 @@
-(* C20 — Trait models keep derived state consistent with their rules.  Theorems only. *)
-From SC Require Import Base.Prelude Traits.Str Traits.Parent Traits.ParentProofs.
+(* C20 — Trait models keep derived state consistent with their rules.
+   Theorems only; models in Traits/*.v (the code as it is after the fix commits; the code as first
+   written is kept as *_v0 with a refutation), proofs in Traits/*Proofs.v.
 
+   Consistency predicates (all executable, also evaluated on every observation by Traits/C20Judge.v):
+     parent      ssorted ts (strictly ascending = sorted and duplicate free) and membership = set algebra
+     vending     dispense_spec: used + conv(q) in used's unit, max 0 (remaining - conv(q)) in remaining's unit,
+                 error and unchanged stock when a needed conversion is impossible
+     fan speed   fan_consistent ps f :  preset <> ""  ->  ps[index] = (preset, percentage)
+                                        preset =  ""  ->  index = -1 and no preset has this percentage
+     mode        rel_value_spec: new index = (old index + step) mod n
+     enter/leave count_step: two counters, reset to zero, caller-supplied totals win
+     meter       meter_wf: start and end recorded, start <= end; start = last reset, end = last operation
+     publication version_ok: version = hash content; receipt state machine NO_SIGNAL -> ACCEPTED/REJECTED *)
+From SC Require Import Base.Prelude Gen.Units Traits.Str Traits.StrProofs
+  Traits.Parent Traits.ParentProofs Traits.Vending Traits.VendingProofs Traits.FanSpeed Traits.FanSpeedProofs
+  Traits.ModeTrait Traits.ModeTraitProofs Traits.EnterLeave Traits.EnterLeaveProofs Traits.Meter Traits.MeterProofs
+  Traits.Publication Traits.PublicationProofs.
+From Coq Require Import QArith.
+Local Open Scope string_scope.
+Local Open Scope Z_scope.
+
+(* ================= parent ================= *)
+
+(* sort.Search on a strictly sorted slice returns the least index whose name is >= ts *)
+Theorem C20_parent_binary_search : forall l ts, ssorted l = true ->
+  (insert_index l ts <= List.length l)%nat /\
+  (forall i, (i < insert_index l ts)%nat -> slt (name_at l i) ts = true) /\
+  ((insert_index l ts < List.length l)%nat -> slt (name_at l (insert_index l ts)) ts = false).
+Proof.
+  intros l ts Hs. rewrite (insert_index_lin l ts Hs). destruct (lin_spec l ts) as (A & B & C).
+  split; [exact A|]. split.
+  - intros i Hi. specialize (B i Hi). unfold sge in B. now apply negb_false_iff in B.
+  - intros Hi. specialize (C Hi). unfold sge in C. now apply negb_true_iff in C.
+Qed.
+Print Assumptions C20_parent_binary_search.
+
+Theorem C20_parent_union_is_set_union : forall more has, ssorted has = true ->
+  ssorted (trait_union has more) = true /\ forall x, In x (trait_union has more) <-> In x has \/ In x more.
+Proof. exact trait_union_spec. Qed.
+Print Assumptions C20_parent_union_is_set_union.
+
+Theorem C20_parent_remove_is_set_difference : forall rm has, ssorted has = true ->
+  ssorted (trait_remove has rm) = true /\ forall x, In x (trait_remove has rm) <-> In x has /\ ~ In x rm.
+Proof. exact trait_remove_spec. Qed.
+Print Assumptions C20_parent_remove_is_set_difference.
+
+(* the judge's membership predicates hold of exactly one list: the model's result *)
+Theorem C20_parent_oracle_exact : forall has names out, ssorted has = true ->
+  (set_ok_union has names out = true <-> out = trait_union has names) /\
+  (set_ok_diff has names out = true <-> out = trait_remove has names).
+Proof. intros. split; [now apply set_ok_union_iff|now apply set_ok_diff_iff]. Qed.
+Print Assumptions C20_parent_oracle_exact.
+
+(* every sequence of AddChildTrait / RemoveChildTrait calls, any children, any names *)
 Theorem C20_parent_sequences : forall ops cs, children_wf cs = true ->
   children_wf (prun cs ops) = true /\
   forall n x, smem x (child_traits n (prun cs ops)) = mem_after n x (smem x (child_traits n cs)) ops.
 Proof. exact parent_sequences. Qed.
 Print Assumptions C20_parent_sequences.
+
+Theorem C20_parent_remove_v0_refuted : trait_remove_v0 ["b"; "d"] ["a"] = ["d"] /\ trait_remove ["b"; "d"] ["a"] = ["b"; "d"].
+Proof. split; vm_compute; reflexivity. Qed.
+Print Assumptions C20_parent_remove_v0_refuted.
+
+Example C20_nonvacuous_parent :
+  children_wf [("c", ["a"; "b"])] = true /\
+  child_traits "c" (prun [("c", ["a"; "b"])] [PAdd "c" ["ab"; "a"]; PRemove "c" ["b"; "zz"]; PAdd "d" ["x"]]) = ["a"; "ab"].
+Proof. split; vm_compute; reflexivity. Qed.
+
+(* ================= vending / units ================= *)
+
+(* obligations about Gen/Units.v (regenerated from unitpb.Convert on every run) *)
+Theorem C20_units_table_obligations :
+  forallb (fun p => (fst p =? snd p) || Bool.eqb (pair_mem p convertible_pairs) (phys_same (fst p) (snd p))) all_pairs = true /\
+  forallb (fun p => (fst p =? snd p) || Bool.eqb (pair_mem p convertible_pairs) (is_some (convert 1%Q (fst p) (snd p)))) all_pairs = true /\
+  forallb factor_ok unit_table = true.
+Proof. exact (conj units_categories_physical (conj units_table_is_relation units_factors_physical)). Qed.
+Print Assumptions C20_units_table_obligations.
+
+Theorem C20_convert_roundtrip : forall v a b w, convert v a b = Some w ->
+  exists v', convert w b a = Some v' /\ (v' == v)%Q.
+Proof. exact convert_roundtrip. Qed.
+Print Assumptions C20_convert_roundtrip.
+
+Theorem C20_convert_error_symmetric : forall v w a b, convert v a b = None -> convert w b a = None.
+Proof. exact convert_error_symmetric. Qed.
+Print Assumptions C20_convert_error_symmetric.
+
+(* DispenseInstantly is the rule: each quantity in its own unit, floor at zero, error reported, stock untouched on error *)
+Theorem C20_dispense_is_spec : forall pre q, dispense pre q = dispense_spec pre q.
+Proof. exact dispense_is_spec. Qed.
+Print Assumptions C20_dispense_is_spec.
+
+Theorem C20_dispense_error_reported : forall s q,
+  ((exists u, s_used s = Some u /\ convert (q_amount q) (q_unit q) (q_unit u) = None) \/
+   (exists r, s_rem s = Some r /\ convert (q_amount q) (q_unit q) (q_unit r) = None)) ->
+  dispense (Some s) q = (VErr 3, Some s).
+Proof. intros s q H. apply dispense_error_reported. now apply dispense_error_iff. Qed.
+Print Assumptions C20_dispense_error_reported.
+
+Theorem C20_dispense_never_panics : forall pre q, fst (dispense pre q) <> VPanic /\ fst (dispense pre q) <> VNilNil.
+Proof. exact dispense_never_panics. Qed.
+Print Assumptions C20_dispense_never_panics.
+
+Theorem C20_vending_sequences : forall qs pre,
+  same_shape pre (vrun pre qs) /\ (rem_nonneg pre -> rem_nonneg (vrun pre qs)).
+Proof. exact vending_sequences. Qed.
+Print Assumptions C20_vending_sequences.
+
+Theorem C20_dispense_v0_refuted :
+  (exists s', fst (dispense_v0 (Some (mkStock (Some (mkQty 3 1%Q)) (Some (mkQty 4 2%Q)) None false)) (mkQty 3 1%Q)) = VStock s'
+              /\ unit_of (s_rem s') = Some 3) /\
+  fst (dispense_v0 (Some (mkStock None (Some (mkQty 3 5%Q)) None false)) (mkQty 3 1%Q)) = VPanic /\
+  fst (dispense_v0 (Some (mkStock (Some (mkQty 3 1%Q)) None None false)) (mkQty 6 1%Q)) = VNilNil.
+Proof. exact (conj dispense_v0_wrong_unit (conj dispense_v0_panics dispense_v0_swallows_error)). Qed.
+Print Assumptions C20_dispense_v0_refuted.
+
+Example C20_nonvacuous_vending :
+  exists s', dispense (Some (mkStock (Some (mkQty 3 1%Q)) (Some (mkQty 4 2%Q)) None true)) (mkQty 3 500%Q) = (VStock s', Some s')
+             /\ s_used s' = Some (mkQty 3 (1 + 500)%Q) /\ unit_of (s_rem s') = Some 4 /\ s_dispensing s' = false.
+Proof. eexists. repeat split. Qed.
+
+(* ================= fan speed ================= *)
+
+Theorem C20_fan_update_consistent : forall ps old req rel, presets_wf ps = true -> fan_consistent ps old = true ->
+  fan_consistent ps (snd (fan_update ps old req rel)) = true.
+Proof. exact fan_update_consistent. Qed.
+Print Assumptions C20_fan_update_consistent.
+
+Theorem C20_fan_sequences : forall ps ops init, presets_wf ps = true -> fan_consistent ps init = true ->
+  fan_consistent ps (fan_run ps init ops) = true.
+Proof. exact fan_sequences. Qed.
+Print Assumptions C20_fan_sequences.
+
+Theorem C20_fan_precedence : forall ps old new,
+  (String.eqb (f_preset new) "" = false -> f_preset old <> f_preset new -> derive ps old new = by_name ps new) /\
+  ((f_preset new = "" \/ f_preset old = f_preset new) -> f_idx old <> f_idx new -> derive ps old new = by_idx ps new) /\
+  ((f_preset new = "" \/ f_preset old = f_preset new) -> f_idx old = f_idx new -> f_pct old <> f_pct new ->
+     derive ps old new = by_pct ps new).
+Proof. exact derive_precedence. Qed.
+Print Assumptions C20_fan_precedence.
+
+Theorem C20_fan_never_panics : forall ps old req rel, fst (fan_update ps old req rel) <> FPanic.
+Proof. exact fan_update_never_panics. Qed.
+Print Assumptions C20_fan_never_panics.
+
+Theorem C20_fan_v0_refuted :
+  (exists new, fan_update_v0 default_presets (mkFan 0 "off" 0 1) (mkFan 40 "" 0 1) false = (FOk new, new)
+               /\ fan_consistent default_presets new = false) /\
+  (exists new, fan_update_v0 default_presets (mkFan 15 "low" 1 1) (mkFan 0 "" 1 1) true = (FOk new, new)
+               /\ fan_consistent default_presets new = false) /\
+  fst (fan_update_v0 [] (mkFan 0 "" (-1) 1) (mkFan 0 "" 0 1) false) = FPanic.
+Proof. exact (conj (proj2 derive_v0_inconsistent) (conj derive_v0_relative_inconsistent derive_v0_panics)). Qed.
+Print Assumptions C20_fan_v0_refuted.
+
+Example C20_nonvacuous_fan :
+  presets_wf default_presets = true /\ fan_consistent default_presets (mkFan 0 "off" 0 1) = true /\
+  fan_run default_presets (mkFan 0 "off" 0 1) [(mkFan 40 "" 0 1, false); (mkFan 0 "" 1 1, true); (mkFan 5 "" 0 2, true)]
+  = mkFan 80 "" (-1) 2.
+Proof. repeat split. Qed.
+
+(* ================= mode ================= *)
+
+Theorem C20_mode_relative_wraps : forall vs cur adj, zlen vs <= 1073741824 -> -1073741824 <= adj <= 1073741824 ->
+  rel_value vs cur adj = rel_value_spec vs cur adj.
+Proof. exact rel_value_wraps. Qed.
+Print Assumptions C20_mode_relative_wraps.
+
+Theorem C20_mode_steps_wrap : forall vs v0 adjs, nodup_strs vs = true -> 0 < zlen vs <= 1073741824 ->
+  Forall (fun a => -1073741824 <= a <= 1073741824) adjs ->
+  forall i, 0 <= i < zlen vs ->
+  steps vs (Some (nth (Z.to_nat i) vs v0)) adjs = Some (nth (Z.to_nat ((i + sumZ adjs) mod zlen vs)) vs v0).
+Proof. exact rel_steps_wrap. Qed.
+Print Assumptions C20_mode_steps_wrap.
+
+Theorem C20_mode_uses_given_modes : forall ms ms' v, new_model ms = Some (ms', v) -> ms' = ms /\ initial_values ms = Some v.
+Proof. exact new_model_uses_modes. Qed.
+Print Assumptions C20_mode_uses_given_modes.
+
+Theorem C20_mode_v0_refuted : exists ms ms' v, new_model_v0 ms = Some (ms', v) /\ ms' <> ms.
+Proof. exact new_model_v0_ignores_modes. Qed.
+Print Assumptions C20_mode_v0_refuted.
+
+Example C20_nonvacuous_mode :
+  steps ["auto"; "slow"; "fast"] (Some "auto") [1; 1; 1; -2; -5] = Some "slow".
+Proof. reflexivity. Qed.
+
+(* ================= enter/leave ================= *)
+
+Theorem C20_enterleave_sequences : forall ops cur,
+  (forall k, let c := counts (tot (el_enter cur), tot (el_leave cur)) (firstn k ops) in
+             -2147483648 <= fst c < 2147483647 /\ -2147483648 <= snd c < 2147483647) ->
+  tot (el_enter (el_run cur ops)) = fst (counts (tot (el_enter cur), tot (el_leave cur)) ops) /\
+  tot (el_leave (el_run cur ops)) = snd (counts (tot (el_enter cur), tot (el_leave cur)) ops).
+Proof. exact el_sequences. Qed.
+Print Assumptions C20_enterleave_sequences.
+
+(* without caller-supplied totals: the numbers of ENTER / LEAVE events since the last reset *)
+Theorem C20_enterleave_counts : forall ops c, Forall (fun o => plain o = true) ops ->
+  counts c ops = let '(a, b, r) := enters_since_reset ops in if r then (a, b) else (fst c + a, snd c + b).
+Proof.
+  intros ops c Hp. pose proof (counts_plain ops c 0 0 false Hp) as H. cbn [fst snd] in H.
+  rewrite !Z.add_0_r in H. rewrite <- surjective_pairing in H. exact H.
+Qed.
+Print Assumptions C20_enterleave_counts.
+
+Example C20_nonvacuous_enterleave :
+  el_run (mkEl 0 None (Some 0) (Some 0))
+    [ElEvent (mkEl ENTER None None None); ElEvent (mkEl ENTER (Some "bob") None None); ElEvent (mkEl LEAVE None None None);
+     ElReset; ElEvent (mkEl ENTER None None None)] = mkEl ENTER None (Some 1) (Some 0).
+Proof. reflexivity. Qed.
+
+(* ================= meter ================= *)
+
+Theorem C20_meter_sequences : forall ops m e0, meter_wf m = true -> m_end m = Some e0 -> times_from e0 ops = true ->
+  meter_wf (meter_run m ops) = true /\
+  m_start (meter_run m ops) = last_reset (m_start m) ops /\
+  m_end (meter_run m ops) = last_time (m_end m) ops.
+Proof. exact meter_sequences. Qed.
+Print Assumptions C20_meter_sequences.
+
+Theorem C20_meter_uses_initial : forall u s e now, new_meter (Some (mkMeter u (Some s) (Some e))) now = mkMeter u (Some s) (Some e).
+Proof. exact new_meter_uses_initial. Qed.
+Print Assumptions C20_meter_uses_initial.
+
+Theorem C20_meter_v0_refuted :
+  new_meter_v0 (Some (mkMeter 5 (Some 10) (Some 20))) 30 = mkMeter 0 None (Some 30) /\
+  m_start (meter_step_v0 (mkMeter 0 (Some 10) (Some 10)) (MRecord 3 20)) = None.
+Proof. split; reflexivity. Qed.
+Print Assumptions C20_meter_v0_refuted.
+
+Example C20_nonvacuous_meter :
+  meter_wf (new_meter None 10) = true /\ times_from 10 [MRecord 4 12; MReset 15; MRecord 7 15] = true /\
+  meter_run (new_meter None 10) [MRecord 4 12; MReset 15; MRecord 7 15] = mkMeter 7 (Some 15) (Some 15).
+Proof. repeat split. Qed.
+
+(* ================= publication (for every version function) ================= *)
+
+Theorem C20_publication_sequences : forall (hash : content -> string) ops pre,
+  version_ok hash pre -> version_ok hash (pub_run hash pre ops).
+Proof. exact pub_sequences. Qed.
+Print Assumptions C20_publication_sequences.
+
+Theorem C20_publication_computed : forall (hash : content -> string) now p,
+  let n := computed hash now p in
+  p_ptime n = Some now /\
+  match p_aud n with Some a => a_receipt a = NO_SIGNAL /\ a_reason a = "" /\ a_rtime a = None | None => p_aud p = None end
+  /\ acked n = false.
+Proof. exact computed_resets. Qed.
+Print Assumptions C20_publication_computed.
+
+Theorem C20_publication_ack_protocol : forall (hash : content -> string) now old id receipt reason allow,
+  id <> "" -> p_version old <> "" ->
+  (acked old = false ->
+     pub_step hash now (Some old) (PAck id (p_version old) receipt reason allow)
+     = (POk (ack_apply now old receipt reason), Some (ack_apply now old receipt reason))) /\
+  (acked old = true ->
+     pub_step hash now (Some old) (PAck id (p_version old) receipt reason allow) = (if allow then POk old else PErr 9, Some old)) /\
+  (forall version, version <> "" -> version <> p_version old ->
+     pub_step hash now (Some old) (PAck id version receipt reason allow) = (PErr 10, Some old)) /\
+  ((receipt = ACCEPTED \/ receipt = REJECTED) -> acked (ack_apply now old receipt reason) = true).
+Proof.
+  intros hash now old id receipt reason allow Hid Hv. repeat split.
+  - now apply ack_first.
+  - now apply ack_twice.
+  - intros version H1 H2. now apply ack_stale.
+  - intros H. now apply ack_marks.
+Qed.
+Print Assumptions C20_publication_ack_protocol.
+
+Theorem C20_publication_version_tracks_content : forall (hash : content -> string) now old p mask v n,
+  (forall a b, hash a = hash b -> a = b) -> version_ok hash (Some old) ->
+  pub_step hash now (Some old) (PUpdate p mask v) = (POk n, Some n) ->
+  (p_version n = p_version old <-> content_of n = content_of old).
+Proof. exact update_changes_version. Qed.
+Print Assumptions C20_publication_version_tracks_content.
+
+Theorem C20_publication_v0_refuted : forall hash,
+  fst (pub_step_v0 hash 7 (Some (mkPub "p" "v" "b" "" (Some (mkAud "a" ACCEPTED "" (Some 1))) (Some 0)))
+         (PAck "p" "v" ACCEPTED "" true)) = PErr 9.
+Proof. exact ack_v0_ignores_allow. Qed.
+Print Assumptions C20_publication_v0_refuted.
+
+Example C20_nonvacuous_publication :
+  let hash := fun c : content => let '(a, b, _, _) := c in append a b in
+  exists p, pub_run hash None [(PCreate (mkPub "p" "" "x" "" (Some (mkAud "d" 0 "" None)) None), 1);
+                               (PAck "p" "px" ACCEPTED "" false, 2); (PUpdate (mkPub "p" "" "y" "" None None) 1 "px", 3)] = Some p
+            /\ p_version p = "py" /\ acked p = false /\ p_ptime p = Some 3.
+Proof. eexists. repeat split. Qed.
